@@ -82,6 +82,12 @@ func (e *emitter) emit(c *Case) {
 	}
 	e.w.Write(b)
 	e.w.WriteByte('\n')
+	if timeoutCount >= 3 {
+		// three cases did not terminate: what has been written is judged, the rest of the stream is given up
+		e.w.Flush()
+		fmt.Fprintln(os.Stderr, "stream aborted after 3 cases that did not terminate")
+		os.Exit(0)
+	}
 	// attribute defaults: every few operator cases are repeated with ONE attribute left out (the
 	// operator must then behave as ONNX's default for it prescribes, or refuse a required attribute)
 	if c.Kind == "op" && len(c.Attrs) >= 1 && c.Share == nil && inputLayout == "" && !e.inDrop && e.every <= 1 {
